@@ -882,3 +882,38 @@ def check_C17(ctx):
         p = ctx.write_scn(_codec_instances(ctx), name="scn_codec.ndjson")
         run = ctx.drive("codec", scn=p, n=0, flags=["--construct"], name="codec")
         ctx.validate("Trace_Codec", run, shards=16)
+
+
+@prop("C12", "scenario = one list of key operations over registers: every derivation path of depth <= 3 (thorough 4) over the index lattice {0, 1, 2^31-1, 2^31, 2^31+1, "
+             "2^32-1} walked along every route (switch to the public side at every level), the 4 keys x 4 messages sign / verify matrix (256 verifications), every "
+             "encoding of every key / signature kind, the password container lattice (8 password lengths around the SHA-256 / SHA-512 block sizes x 3 plaintext "
+             "lengths x right / HMAC-equivalent / other passwords x damaged containers), plus seeded random paths to depth 6, matrices and containers; "
+             "distinct = (operation, kind, law instance flags)")
+def check_C12(ctx):
+    ctx.assumptions += ["the primitives are uninterpreted: that signatures are RFC 8032 Ed25519 and the container is PBKDF2-HMAC-SHA512 / ChaCha20-Poly1305 per EMIP-3 is NOT decided; "
+                        "a defect symmetric in sign and verify, or in encrypt and decrypt, is invisible",
+                        "'another password' means another HMAC key: a password and the same password followed by zero bytes, and a password longer than 128 bytes and its SHA-512, "
+                        "are the same key by construction of HMAC (SHA-512 of passwords is evaluated by hashlib, not by the harness)",
+                        "keys are rebuilt from their bytes for every operation (the key types are not Clone), so from_bytes / as_bytes take part in every step"]
+    if ctx.replay:
+        ctx.run_replay()
+        return
+    cfg = "MC_KeyAlgebra_thorough.cfg" if ctx.thorough else "MC_KeyAlgebra.cfg"
+    r = ctx.mc("MC_KeyAlgebra", cfg=cfg, workers=8, timeout=1800)
+    p = ctx.write_scn(r.by("SCN"))
+    run = ctx.drive("keys", scn=p, n=6000 if ctx.thorough else 600)
+
+    def corrupt(recs, rnd):
+        n = 0
+        for r in recs:
+            if r.get("ev") == "Key" and r["op"]["op"] == "dpub" and isinstance(r.get("r"), dict) and r["r"].get("ok"):
+                r["r"]["b"][5] ^= 1
+                n += 1
+        return n > 0
+    em = ctx.validate("Trace_KeyAlgebra", run, shards=16, corrupt=corrupt)
+    if em is not None:
+        tf = [e for e in em if e.get("t") == "TOOLFAIL"]
+        if tf and not ctx.selftest:
+            raise ToolError("harness / specification problem (not a verdict): %s" % json.dumps(tf[0])[:300])
+        n = _take_hashchk(ctx, em)
+        ctx.extra["digest_checks"] = n
